@@ -272,7 +272,7 @@ def r3(ctx, fs):
     cells = {}
     tested = False
     for p in enum_paths(f.body):
-        L = path_literals(p.conds, cn)
+        L = path_literals(p, cn)
         if L is None:
             continue
         v, o = value_of(L, VAL), value_of(L, OP)
